@@ -199,9 +199,13 @@ func H_C10_gap() {
 // 1: local Logout(), then inbound Logout -> nothing transmitted by the second step, logout event once
 // 2: Stop(), then inbound Logout -> context cancelled by the answer (deadline timer not fired)
 // 3: Stop(), no answer, deadline fires -> context cancelled
+// 5: local Logout(), a whole silent period (probe), then the peer's answer -> no second Logout, logout event once
 // 4: Stop() whose Logout is refused by an application outgoing handler, deadline fires -> context cancelled
 func H_C15_logout() {
 	role, sc := zz.Param(0), zz.Param(1)
+	if sc == 5 {
+		zz.TimerStub(true)
+	}
 	zz.Class("scenario=" + strconv.Itoa(sc) + "/role=" + strconv.Itoa(role))
 	st := memory.NewStorage()
 	ct := time.Duration(zz.IntIn(0, 1<<40))
@@ -262,6 +266,23 @@ func H_C15_logout() {
 		zz.Reach("served")
 		zz.Assert(len(out) == 0, "C15: a second Logout is sent when the peer's answer arrives")
 		zz.Assert(f.events[utils.EventLogout] == 1, "C15: the logout event is not raised exactly once")
+		zz.Assert(!f.s.IsLogged(), "C15: logged on after the logout handshake")
+	case 5:
+		// local Logout(); the peer stays silent for a whole period (the session probes it) and only
+		// then answers: still no second Logout, the logout event once, not logged on
+		zz.Assert(f.s.Logout() == nil, "C15: Logout() failed")
+		o1 := f.h.VerifOut()
+		zz.Assert(zz.And(len(o1) == 1, isType(o1[0], "5")), "C15: Logout() does not transmit exactly one Logout")
+		zz.Yield()
+		zz.FireTimer(0)
+		zz.Yield()
+		_ = f.h.VerifOut() // the probe
+		out := f.serve(peerLogout(2))
+		zz.Reach("served")
+		for _, o := range out {
+			zz.Assert(!isType(o, "5"), "C15: a second Logout is sent when the peer's answer arrives after a probe")
+		}
+		zz.Assert(f.events[utils.EventLogout] == 1, "C15: the logout event is not raised exactly once when the answer arrives after a probe")
 		zz.Assert(!f.s.IsLogged(), "C15: logged on after the logout handshake")
 	case 4:
 		// Stop() while an application outgoing handler refuses the Logout (it is not transmitted,
